@@ -673,6 +673,9 @@ impl Vm {
             .environments
             .truncate(environment_sp as usize);
         self.stack.stack.truncate(stack_sp);
+        // So is a binding reference pushed by `GetLocator`/`GetNameAndLocator` whose
+        // `SetNameByLocator` was skipped by the exception: handlers start at statement level.
+        self.frame_mut().binding_stack.clear();
 
         true
     }
